@@ -90,7 +90,7 @@ impl C19 {
             c.stats.bump("probe.c19.skew_outside_stated_range");
             return Ok(());
         }
-        let dust_pool = rs.iter().any(|x| *x < 1000);
+        let dust_pool = super::c03::degenerate(pool, &rs);
         let st = Stable::new(amp, rs.len());
         let d = match st.d_scaled(&xs) {
             Some(d) => d,
